@@ -614,6 +614,7 @@ def record_program(pi, src, seed, n_targets, n_search, quick=True):
                 plan.append((k, path, form, 'none'))
     # patterns with every combinator at top level, used for match and search
     tops = []
+    topkind = {}
     for kind in TOP_KINDS:
         i = rng.choice(cand)
         path, node, par = prog.nodes[i]
@@ -625,6 +626,7 @@ def record_program(pi, src, seed, n_targets, n_search, quick=True):
         stats['kinds'] |= g.kinds
         k = add_pat(p, g.src or kind in ('str', 're', 'MRE'), 'top:' + kind)
         tops.append(k)
+        topkind[k] = kind
         for form in forms:
             plan.append((k, path, form, 'none'))
     rng.shuffle(plan)
@@ -640,6 +642,10 @@ def record_program(pi, src, seed, n_targets, n_search, quick=True):
         scope = on == 'enter' and rng.random() < 0.2
         searches.append((k, prog.nodes[root_i][0], rng.choice(fst_forms), nested, on, rng.random() < 0.3,
                          rng.random() < 0.8, rng.random() < 0.85, scope))
+    # the pre-filter is type based: every type-shaped top-level pattern is searched once from the module root as well
+    for k in tops:
+        if topkind[k] in ('base', 'type', 'mtype', 'MTYPES', 'MTYPESf', 'MNOT', 'MNOT2', 'MOR3', 'MOR4', 'MAND2', 'MTAG', 'backref'):
+            searches.append((k, (), rng.choice(fst_forms), True, rng.choice(['enter', 'leave']), rng.random() < 0.3, True, True, False))
     script = [('m', x) for x in plan] + [('s', x) for x in searches]
     rng.shuffle(script)
     ins = [('m', x) for x in repeats]
